@@ -122,7 +122,7 @@ CLAIMED["C12"] = dict(
          "nothing remains allocated after the free functions.",
     note="quick tier scripts: vnadata (alloc, init, setters incl. both z0 mode switches, resize grow/shrink, free), "
          "vnacal_new (create, new_alloc, add_single_reflect_m, free; K=21), addcal (replace by name, grow the "
-         "table), vnacal (create, make_scalar/vector/unknown, delete, free; K=11); thorough adds add_frequency "
+         "table), vnacal (create, make_scalar/vector/unknown, delete, free; K=11), vnacal_corr (the same plus make_correlated; K=15); thorough adds add_frequency "
          "(0->50 allocation step); every run also proves that its injected fault was reached; a/b forms, solve, save/load are outside",
     design="DESIGN.md 2.2 E4, 3 C12, 8.7",
     technique="exhaustive single-allocation-fault enumeration, one CBMC proof run per fault index",
